@@ -18,6 +18,9 @@
 #         hxpull.S|a   stop_relay_pull       hkick.S|a.NAME|a   kick_session
 #         hpp.S|a.N.P.T.F  start_rtp_pub with port P, timeout_ms T, is_tcp_flag F; result <code>~<timeout s>:<tcp> when accepted
 #                          P = b: an explicit port that cannot be bound - the harness holds a udp (tcp when F asks for tcp) socket on it
+#       rp.S.N.wK / rs.S.N.wK   the K-th write of the RTMP server shell on this connection fails, and every later one (handshake 1, connect
+#                    2-5, createStream 6, publish 7 | play 7-9); ap.S.N.w1: the response to ANNOUNCE cannot be written; pl.N.w: nor that to PLAY
+#                    (RTSP: the failed write closes the connection, the shell ends with it - gone.N)
 #       pp.S.N.b     start_rtp_pub (direct call) for a udp port the harness holds: Listen fails
 #       spull.S.0.A.bad | .badrtsp | .http   start_relay_pull with a malformed rtmp / rtsp url or a scheme without pull session:
 #                    the attempt starts (answer 0:<attempt>) and fails by itself in the same step (only with retry budget 0)
@@ -182,6 +185,10 @@ def rand_history(rng, n_ops, streams):
             k = rng.choice(["rp", "rp", "ap", "cp", "pp"])
             i = nid()
             deny = ".deny" if (k in ("rp", "ap") and rng.random() < 0.1) else ""
+            if k == "rp" and rng.random() < 0.12:
+                # the connection breaks while the shell answers: the k-th write fails
+                ops.append("rp.%d.%d.w%d" % (s, i, rng.choice([1, 3, 5, 6, 7, 7, 7])))
+                continue
             if k == "pp" and rng.random() < 0.3:
                 # a start_rtp_pub whose port cannot be bound
                 ops.append(rng.choice(["pp.%d.%d.b" % (s, i), "hpp.%d.%d.b.a.%s" % (s, i, rng.choice(["0", "1"]))]))
@@ -192,6 +199,9 @@ def rand_history(rng, n_ops, streams):
             k = rng.choice(["fs", "rs", "ts", "ds", "fs"])
             i = nid()
             deny = ".deny" if rng.random() < 0.1 else ""
+            if k == "rs" and rng.random() < 0.3:
+                ops.append("rs.%d.%d.w%d" % (s, i, rng.choice([2, 6, 7, 8, 9, 9])))
+                continue
             ops.append("%s.%d.%d%s" % (k, s, i, deny))
             live.append((i, k, s))
         elif r < 0.46 and [x for x in live if x[1] in ("ap", "ds")]:
@@ -333,7 +343,23 @@ def gen_listen_fail():
     yield Case(line(["fs.1.90", "pfail.1.0", "spull.1.0.n1.bad", "tick.1", "xpull.1", "spull.1.0.n1.http", "tick.2", "tick.3"], "static=1"), cls="pullselffail")
 
 
+def gen_write_fail():
+    # server shells whose writes fail from the K-th on, K over every write up to the answer to publish / play and one beyond,
+    # with the group absent / kept by a subscriber / occupied by a publisher: nothing may be notified for a session the observer
+    # never saw, an accepted one gets its pair
+    pres = {"none": [], "sub": ["fs.1.90"], "pub": ["fs.1.90", "rp.1.5"], "pull": ["fs.1.90", "spull.1.n1.n1", "psucc.1.0"]}
+    for pk, pre in pres.items():
+        for k in range(1, 9):
+            yield Case(line(pre + ["rp.1.1.w%d" % k, "tick.1", "rp.1.2", "media.2", "gone.2", "gone.1", "tick.2", "tick.3"]), cls="writefail-rp-" + pk)
+        for k in range(1, 11):
+            yield Case(line(pre + ["rs.1.1.w%d" % k, "tick.1", "rs.1.2", "gone.2", "gone.1", "tick.2", "tick.3"]), cls="writefail-rs-" + pk)
+        yield Case(line(pre + ["ap.1.1.w1", "sdp.1", "tick.1", "ap2.1.1.2", "ap.1.3", "gone.1", "sdp.1", "tick.2", "ap.1.4", "gone.4", "gone.3", "tick.3"]), cls="writefail-rtsp-" + pk)
+        yield Case(line(pre + ["ds.1.1", "pl.1.w", "tick.1", "pl.1", "ds2.1.1.2", "gone.1", "tick.2", "ds.1.3", "pl.3", "gone.3", "tick.3"]), cls="writefail-rtsp-" + pk)
+    yield Case(line(["fs.1.90", "rp.1.1.w7", "rs.1.2.w9", "rp.1.3.w1", "rs.1.4.w4", "rp.1.5", "rp.1.6.w7", "rs.1.7.w8", "ap.1.8.w1", "gone.8", "gone.5", "rp.2.9.w7", "tick.1"]), cls="writefail-mixed")
+
+
 def gen_cases(tier, rng):
+    yield from gen_write_fail()
     yield from gen_listen_fail()
     yield from gen_content()
     yield from gen_rtmp_conn()
